@@ -1,4 +1,12 @@
+//! h_coord — explicit-state model checking of the real `varpulis_cluster::Coordinator` (C32).
+mod c32;
+mod mock;
+mod oracle;
+
 fn main() {
     let args = mc::parse_args();
-    mc::machinery_error(&format!("{} is not built yet", args.prop));
+    match args.prop.as_str() {
+        "C32" => c32::run(args),
+        other => mc::machinery_error(&format!("h_coord serves C32, not {other}")),
+    }
 }
